@@ -49,6 +49,13 @@ def check(prog, run):
         run.check(a == b, "R2", "siblings-equal", "identical productions", "annexb_to_avcc and hevc_annexb_to_hvcc differ")
     r2_iter(prog, run)
     r3(prog, run)
+    run.rule("R5", "what is queued is the converter's / ADTS validator's output itself (C01.R6 instances): no further slicing or trimming by the writer")
+    try:
+        from . import c01, c15
+        m = c01.Model(prog)
+        c01.r6(m, c15._Map(run, {"R6": "R5"}))
+    except Exception as e:
+        run.bad("R5", "anchor", "cannot derive the writers' queued records (fail closed): %s" % e)
     run.rule("R4", "start-code scanner: step 1 from `from`; hits only under the exact 3-/4-byte patterns; None only when i + 3 > len (or trivially no room)")
     r4_scanner(prog, run)
 
@@ -192,8 +199,46 @@ def r2_iter(prog, run):
         if any(s[0] == "load" and s[1] in ("arg1.data.*.[]", "arg1.data.[]") for s in sym.sources(x)):
             good = True
     run.check(good and len(oks) == 1, "R2", "iterator-yields-subslice", "next() = Some(&self.data[a..b])", "AnnexBNalIter::next does not return a sub-slice of its input: %s" % d[:200], mir.loc_of(b))
-    # cursor is set to the end of the yielded unit (units are yielded in order, without overlap)
-    cur = [s for s in mir.Stores(mir.Graph(u)).sites[name] if s[3].startswith("assign") and s[2][1] == ("cursor",)] if False else None
+    # unit boundaries: the unit starts right after the start code found from the cursor (pos + len of that hit), the search for
+    # its end starts at that very position (an empty unit between two adjacent start codes ends where it starts), and the cursor
+    # moves to the unit's end
+    scans = [(bb, t) for bb, t, nm, info in mir.calls(b) if nm and mir.norm(nm).endswith("codec::common::find_start_code")]
+    rng = None
+    for e in oks:
+        for t in sym.walk(sym.expr_rv(b, e["node"]["rv"])):
+            if isinstance(t, tuple) and t and t[0] == "agg" and "Range" in str(t[1]) and len(t[3]) == 2:
+                rng = t
+    if len(scans) != 2 or rng is None:
+        run.bad("R2", "iterator unit boundaries", "AnnexBNalIter::next is not `find start code from cursor; find the next one; yield data[start..end]` (found %d scans): cannot check the unit boundaries (fail closed)" % len(scans), mir.loc_of(b))
+        return
+    (bb1, t1), (bb2, t2) = sorted(scans, key=lambda x: x[0])
+    dom = mir.dominators(b)
+    if bb2 in dom[bb1] and bb1 not in dom[bb2]:
+        (bb1, t1), (bb2, t2) = (bb2, t2), (bb1, t1)
+    first_from = sym.expr(b, t1["args"][1])
+    start, end = rng[3]
+    s2 = sym.expr(b, t2["args"][1])
+
+    def peel(x):
+        while x[0] == "proj" or x[0] == "cast":
+            x = x[1] if x[0] == "proj" else x[4]
+        return x
+    st_ = peel(start)
+    comps_ok = False
+    if st_[0] == "bin" and st_[1] in ("Add", "AddWithOverflow", "AddUnchecked"):
+        a_, c_ = st_[2], st_[3]
+        def from_first(x):
+            calls_ = [t for t in sym.walk(x) if isinstance(t, tuple) and t and t[0] == "call" and t[1].endswith("find_start_code")]
+            bins = [t for t in sym.walk(x) if isinstance(t, tuple) and t and t[0] == "bin"]
+            return len(calls_) == 1 and calls_[0][4] == bb1 and not bins
+        comps_ok = a_ != c_ and from_first(a_) and from_first(c_)
+    run.check(first_from[0] == "load" and str(first_from[1]).endswith(".cursor"), "R2", "iterator scan-from-cursor", "the start code is searched from self.cursor", "the first scan starts at %s, not at the cursor" % sym.show(first_from)[:80], mir.loc_of(t1))
+    run.check(comps_ok, "R2", "iterator unit-start", "unit start = position + length of the start code found", "the yielded unit starts at %s, not right after the start code found from the cursor" % sym.show(start)[:160], mir.loc_of(t2))
+    run.check(s2 == start, "R2", "iterator end-scan-from-unit-start", "the next start code is searched from the unit's first byte position",
+              "the search for the unit's end starts at %s, not at the unit's start %s: a start code beginning at the unit's first position is missed, so an empty unit (two adjacent start codes) swallows the bytes of the following start code" % (sym.show(s2)[:120], sym.show(start)[:80]), mir.loc_of(t2))
+    cur = [st for st in mir.Stores(mir.Graph(u)).sites[name] if st[3].startswith("assign") and st[2][1] == ("cursor",) and st[4].get("k") == "assign"]
+    good = len(cur) == 1 and sym.expr_rv(b, cur[0][4]["rv"]) == end
+    run.check(good, "R2", "iterator cursor := unit end", "units are yielded in order without gap or overlap", "the cursor is not moved to the end of the yielded unit", mir.loc_of(cur[0][4]) if cur else mir.loc_of(b))
 
 
 # ---------------------------------------------------------------------------------------------
